@@ -139,12 +139,17 @@ Definition set_order (h : sechdr) (o : Z) : sechdr :=
   mkSec (s_size3 h) (s_type h) (s_ext h) (s_hlen h) (s_gd h) (s_name h) (s_build h) (s_version h)
         (s_depex h) o.
 
-(* [strip] forgets the FileOrder metadata of sections (the index at which the parser met the
-   section; neither Assemble nor the bytes depend on it) *)
+Definition set_fdo (h : filehdr) (o : Z) : filehdr :=
+  mkFile (f_guid h) (f_ckh h) (f_ckf h) (f_type h) (f_attr h) (f_size3 h) (f_state h) (f_ext h) o (f_nvar h).
+
+(* [strip] forgets two pieces of metadata that neither Assemble nor the bytes depend on: the
+   FileOrder of sections (the index at which the parser met the section) and the DataOffset of
+   files (24 or 32, recomputed by the parser from the size field; Assemble leaves the old value in
+   the node when a file changes between the two header forms) *)
 Fixpoint strip (n : node) : node :=
   match n with
   | NSec h buf kids => NSec (set_order h 0) buf (map strip kids)
-  | NFile h buf kids => NFile h buf (map strip kids)
+  | NFile h buf kids => NFile (set_fdo h 0) buf (map strip kids)
   | NVol h buf kids => NVol h buf (map strip kids)
   | NPad off buf => NPad off buf
   end.
@@ -244,6 +249,10 @@ Variable nvar : bytes -> option bytes.
 (* the only thing assumed of the codecs: decoding what the encoder produced gives the input back *)
 Hypothesis dec_enc : forall k x y, enc k x = Some y -> dec k y = Some x.
 
+(* lemmas that do not need the codec hypothesis (or a variable) drop it first, so that they are
+   not generalised over it when the section closes *)
+Ltac clear_sec := try clear dec_enc; try clear dec; try clear enc; try clear u2s; try clear s2u; try clear nvar.
+
 Notation psec := (parse_section dec u2s nvar).
 Notation pfile := (parse_file dec u2s nvar).
 Notation pfv := (parse_fv dec u2s nvar).
@@ -264,28 +273,29 @@ Lemma asm_list_eq : forall l st,
        do rs <- asm_list r st1; let '(r', st2) := rs in
        Ok (x' :: r', st2)
      end) l st = asml l st.
-Proof.
+Proof using Type. clear_sec.
   reflexivity.
 Qed.
 
 Lemma asm_sec h buf kids st :
   asm' (NSec h buf kids) st =
   (do ks <- asml kids st; let '(kids', st1) := ks in secasm h buf kids' st1).
-Proof. cbn [asm]. rewrite asm_list_eq. reflexivity. Qed.
+Proof using Type. clear_sec. cbn [asm]. rewrite asm_list_eq. reflexivity. Qed.
 
 Lemma asm_file h buf kids st :
   asm' (NFile h buf kids) st =
   (do ks <- asml kids st; let '(kids', st1) := ks in file_asm h buf kids' st1).
-Proof. cbn [asm]. rewrite asm_list_eq. reflexivity. Qed.
+Proof using Type. clear_sec. cbn [asm]. rewrite asm_list_eq. reflexivity. Qed.
 
 Lemma asm_volume h buf kids st :
   asm' (NVol h buf kids) st =
   match set_polarity (fst st) (fv_polarity (v_attrs h)) with
   | None => Err E_POLARITY
   | Some pol0 =>
-    do ks <- asml kids (pol0, snd st); let '(kids', st1) := ks in vol_asm h buf kids' st1
+    do ks <- asml kids (pol0, false); let '(kids', st1) := ks in
+    do r <- vol_asm h buf kids' st1; let '(n', st2) := r in Ok (n', (fst st2, snd st))
   end.
-Proof. cbn [asm]. destruct (set_polarity _ _); [|reflexivity]. rewrite asm_list_eq. reflexivity. Qed.
+Proof using Type. clear_sec. cbn [asm]. destruct (set_polarity _ _); [|reflexivity]. rewrite asm_list_eq. reflexivity. Qed.
 
 (* ---------- NewSection split into header decoding and the type-specific part ---------- *)
 
@@ -352,6 +362,7 @@ Lemma section_body_eq rs rf pol buf order :
   do he <- sec_head buf;
   let '(hlen, ext) := he in
   if zlen buf <? ext then Err E_SIZE else
+  if ext <? hlen then Err E_OVERSIZEHDR else
   sec_tail rs rf pol (sub 0 ext buf) (rd 0 3 buf) (rd 3 1 buf) ext hlen order.
 Proof. reflexivity. Qed.
 
@@ -361,7 +372,7 @@ Lemma sec_head_app sb rest hlen ext :
   4 <= zlen sb -> sec_head sb = Ok (hlen, ext) -> ext = zlen sb ->
   (known_section (rd 3 1 sb) = false -> rd 0 3 sb <= zlen sb) ->
   sec_head (sb ++ rest) = Ok (hlen, ext).
-Proof.
+Proof using Type. clear_sec.
   intros H4 Hh He Hu. unfold sec_head in *.
   rewrite (rd_app_l sb rest 0 3) by (simpl; lia). rewrite (rd_app_l sb rest 3 1) by (simpl; lia).
   destruct (known_section (rd 3 1 sb)).
@@ -429,6 +440,7 @@ Proof.
   destruct (zlen buf <? 4) eqn:E4; [discriminate|].
   destruct (sec_head buf) as [[hlen ext]| | |] eqn:Hh; cbn [bind] in Hp; try discriminate.
   destruct (zlen buf <? ext) eqn:Ee; [discriminate|].
+  destruct (ext <? hlen) eqn:Ehl; [discriminate|].
   pose proof (sec_tail_type _ _ _ _ _ _ _ _ _ _ _ _ _ Hp) as (Ht & Hs3 & Hext & Hhl & Hb).
   assert (Hx : ext = zlen buf) by (apply sub0_whole; [lia|lia|symmetry; exact Hb]).
   assert (Hh' : sec_head (buf ++ rest) = Ok (hlen, ext)).
@@ -436,7 +448,7 @@ Proof.
   rewrite zlen_app. pose proof (zlen_nonneg rest).
   replace (zlen buf + zlen rest <? 4) with false by lia.
   rewrite Hh'. cbn [bind].
-  replace (zlen buf + zlen rest <? ext) with false by lia.
+  replace (zlen buf + zlen rest <? ext) with false by lia. rewrite Ehl.
   rewrite (rd_app_l buf rest 0 3) by (simpl; lia). rewrite (rd_app_l buf rest 3 1) by (simpl; lia).
   replace (sub 0 ext (buf ++ rest)) with buf.
   2:{ rewrite Hx. symmetry. apply sub_app_here. reflexivity. }
@@ -474,7 +486,7 @@ Lemma gen_shape h body : zlen body < 4294967000 ->
     (forall X, rd 0 3 (chdr ++ X) = size3 /\ rd 3 1 (chdr ++ X) = s_type h) /\
     (forall X, known_section (s_type h) = true -> sec_head (chdr ++ X) = Ok (hl, ext)) /\
     (16777215 <? ext = (hl =? 8)).
-Proof.
+Proof using Type. clear_sec.
   intros Hb. pose proof (zlen_nonneg body) as Hn.
   unfold gen_sec_header.
   set (hl0 := 4 + match s_gd h with Some _ => 20 | None => 0 end).
@@ -552,10 +564,10 @@ Fixpoint tailj (o : Z) (l : list bytes) : bytes :=
   end.
 
 Lemma zlen_pad4 o : 0 <= o -> zlen (pad4 o) = align4 o - o.
-Proof. intros. unfold pad4. apply zlen_zrepeat. pose proof (align4_ge o). lia. Qed.
+Proof using Type. clear_sec. intros. unfold pad4. apply zlen_zrepeat. pose proof (align4_ge o). lia. Qed.
 
 Lemma join4_tailj : forall l acc, join4 acc l = acc ++ tailj (zlen acc) l.
-Proof.
+Proof using Type. clear_sec.
   induction l as [|b r IH]; intros acc; cbn [join4 tailj]; [rewrite app_nil_r; reflexivity|].
   rewrite IH. rewrite <- !app_assoc. fold (pad4 (zlen acc)).
   rewrite !zlen_app, zlen_pad4 by apply zlen_nonneg.
@@ -564,10 +576,10 @@ Proof.
 Qed.
 
 Lemma pad4_shift a o : a mod 4 = 0 -> pad4 (a + o) = pad4 o.
-Proof. intros. unfold pad4. rewrite align4_add by assumption. f_equal. lia. Qed.
+Proof using Type. clear_sec. intros. unfold pad4. rewrite align4_add by assumption. f_equal. lia. Qed.
 
 Lemma tailj_shift a : a mod 4 = 0 -> forall l o, tailj (a + o) l = tailj o l.
-Proof.
+Proof using Type. clear_sec.
   intros Ha. induction l as [|b r IH]; intros o; cbn [tailj]; [reflexivity|].
   rewrite pad4_shift by assumption. rewrite align4_add by assumption.
   rewrite <- Z.add_assoc. rewrite IH. reflexivity.
@@ -584,7 +596,7 @@ Lemma loop_tailj rs pol : forall kids, Forall (reparses_sec rs pol) kids ->
   exists kids2,
     sections_loop rs n (pre ++ tailj o (map node_buf kids)) pol (align4 o) i = Ok (kids2, pol) /\
     map strip kids2 = map strip kids.
-Proof.
+Proof using Type. clear_sec.
   induction 1 as [|k r [Hpos Hk] Hr IH]; intros pre o n i Ho Hn.
   - destruct n as [|n]; [simpl in Hn; lia|]. cbn [map tailj sections_loop]. rewrite app_nil_r.
     pose proof (zlen_nonneg pre). pose proof (align4_ge o ltac:(lia)).
@@ -614,7 +626,7 @@ Lemma loop_join4 rs pol kids n i : Forall (reparses_sec rs pol) kids -> (length 
   exists kids2,
     sections_loop rs n (join4 [] (map node_buf kids)) pol 0 i = Ok (kids2, pol) /\
     map strip kids2 = map strip kids.
-Proof.
+Proof using Type. clear_sec.
   intros H Hn. rewrite join4_tailj.
   exact (loop_tailj rs pol kids H [] 0 n i eq_refl Hn).
 Qed.
@@ -625,7 +637,7 @@ Lemma loop_file rs pol kids hdr n i : Forall (reparses_sec rs pol) kids -> (leng
   exists kids2,
     sections_loop rs n (hdr ++ join4 [] (map node_buf kids)) pol (zlen hdr) i = Ok (kids2, pol) /\
     map strip kids2 = map strip kids.
-Proof.
+Proof using Type. clear_sec.
   intros H Hn Hm. rewrite join4_tailj. cbn [app]. change (zlen (@nil Z)) with 0.
   pose proof (loop_tailj rs pol kids H hdr (zlen hdr) n i eq_refl Hn) as G.
   rewrite (align4_fix (zlen hdr) Hm) in G.
@@ -637,7 +649,7 @@ Qed.
 Lemma length_le_zlen_join (kids : list node) :
   Forall (fun k => 0 < zlen (node_buf k)) kids ->
   Z.of_nat (length kids) <= zlen (join4 [] (map node_buf kids)).
-Proof.
+Proof using Type. clear_sec.
   intros H. rewrite join4_tailj. cbn [app]. generalize (zlen (@nil Z)). 
   induction H as [|k r Hk Hr IH]; intros o; cbn [map tailj length]; [unfold zlen; simpl; lia|].
   rewrite !zlen_app. specialize (IH (align4 o + zlen (node_buf k))).
@@ -689,6 +701,7 @@ Proof.
   assert (HB : B ++ rest = chdr ++ (tsh ++ c) ++ rest) by (unfold B; rewrite <- !app_assoc; reflexivity).
   rewrite HB at 1. rewrite (Hhead _ ltac:(rewrite Ht; reflexivity)). cbn [bind].
   cbn [tslen]. replace (zlen (B ++ rest) <? hl + 20 + zlen c) with false by (rewrite zlen_app; lia).
+  replace (hl + 20 + zlen c <? hl) with false by lia.
   replace (sub 0 (hl + 20 + zlen c) (B ++ rest)) with B by (symmetry; apply sub_app_here; exact Hzb).
   rewrite HB. destruct (Hrd ((tsh ++ c) ++ rest)) as [R0 R3]. rewrite R0, R3. rewrite Ht.
   unfold sec_tail. change (2 =? 2) with true. cbv iota.
@@ -728,7 +741,7 @@ Definition asm_node (r : outcome (node * ast)) : option node :=
 (* the node Assemble makes of a section does not depend on the visitor state *)
 Lemma sec_asm_node_st h buf kids st st' :
   asm_node (secasm h buf kids st) = asm_node (secasm h buf kids st').
-Proof.
+Proof using Type. clear_sec.
   destruct st as [p f], st' as [p' f']. unfold sec_asm.
   destruct kids as [|k r].
   - match goal with |- context [bind ?e _] => destruct e as [[b|]| | |] end; cbn [bind asm_node]; reflexivity.
@@ -743,7 +756,7 @@ Definition leaf_stable (h : sechdr) (buf : bytes) : Prop :=
 
 Lemma leaf_stable_asm h buf st : leaf_stable h buf ->
   exists st', secasm h buf [] st = Ok (NSec h buf [], st').
-Proof.
+Proof using Type. clear_sec.
   unfold leaf_stable. rewrite (sec_asm_node_st h buf [] (255, false) st).
   destruct (secasm h buf [] st) as [[n st']| | |]; cbn [asm_node]; try discriminate.
   intros [= ->]. eauto.
@@ -757,7 +770,7 @@ Fixpoint height (n : node) : nat :=
 
 Lemma height_kids k kids : In k kids ->
   (height k <= fold_right (fun k m => Nat.max (height k) m) 0%nat kids)%nat.
-Proof.
+Proof using Type. clear_sec.
   induction kids as [|x r IH]; intros H; [destruct H|].
   cbn [fold_right]. destruct H as [->|H]; [lia|]. specialize (IH H). lia.
 Qed.
@@ -795,7 +808,6 @@ Inductive canon (pol : Z) : node -> Prop :=
     kids <> [] -> Forall (canon pol) kids -> Forall is_sec kids ->
     f_nvar h = None -> supported_file (f_type h) = true -> zlen (f_guid h) = 16 ->
     zlen (join4 [] (map node_buf kids)) < 4294967000 ->
-    f_dataoff h = (if attr_large (f_attr h) then 32 else 24) ->
     file_regen h (join4 [] (map node_buf kids)) = (h, buf) ->
     canon pol (NFile h buf kids).
 
@@ -826,6 +838,7 @@ Proof.
     rewrite section_body_eq in Hp. destruct (zlen buf <? 4); [discriminate|].
     destruct (sec_head buf) as [[hl ext]| | |]; cbn [bind] in Hp; try discriminate.
     destruct (zlen buf <? ext) eqn:Ee; [discriminate|].
+    destruct (ext <? hl) eqn:Ehl; [discriminate|].
     pose proof (sec_tail_type _ _ _ _ _ _ _ _ _ _ _ _ _ Hp) as (_ & _ & Hext & _ & Hb).
     rewrite Hext. apply sub0_whole; [lia|lia|symmetry; exact Hb].
   - (* compressed *)
@@ -854,27 +867,27 @@ Qed.
 (* ---------- stage 2: files ---------- *)
 
 Lemma attr_large_set a : attr_large (set_large a true) = true.
-Proof.
+Proof using Type. clear_sec.
   unfold attr_large, set_large. rewrite Z.land_lor_distr_l. change (Z.land 1 1) with 1.
   destruct (Z.lor (Z.land a 1) 1 =? 0) eqn:E; [|reflexivity].
   apply Z.eqb_eq in E. apply Z.lor_eq_0_iff in E. destruct E; discriminate.
 Qed.
 
 Lemma attr_large_clear a : attr_large (set_large a false) = false.
-Proof.
+Proof using Type. clear_sec.
   unfold attr_large, set_large. rewrite <- Z.land_assoc. change (Z.land 254 1) with 0.
   rewrite Z.land_0_r. reflexivity.
 Qed.
 
 Lemma set_large_idem a b : set_large (set_large a b) b = set_large a b.
-Proof.
+Proof using Type. clear_sec.
   unfold set_large. destruct b.
   - rewrite <- Z.lor_assoc. reflexivity.
   - rewrite <- Z.land_assoc. reflexivity.
 Qed.
 
 Lemma sum8_app a b : sum8 (a ++ b) = (sum8 a + sum8 b) mod 256.
-Proof.
+Proof using Type. clear_sec.
   unfold sum8. assert (E : sum_list (a ++ b) = sum_list a + sum_list b).
   { induction a as [|x a IH]; simpl; [reflexivity|]. rewrite IH. lia. }
   rewrite E. apply Z.add_mod. lia.
@@ -894,7 +907,7 @@ Lemma file_regen_shape h data : zlen (f_guid h) = 16 -> zlen data < 4294967000 -
                rd 18 1 (hdr ++ X) = f_type h /\ rd 19 1 (hdr ++ X) = attr /\ rd 20 3 (hdr ++ X) = size3 /\
                rd 23 1 (hdr ++ X) = f_state h /\ (hl = 32 -> rd 24 8 (hdr ++ X) = hl + zlen data)) /\
     (hl = 24 -> size3 = hl + zlen data).
-Proof.
+Proof using Type. clear_sec.
   intros Hg Hd. pose proof (zlen_nonneg data) as Hn.
   unfold file_regen, set_size, checksum_and_assemble.
   destruct (16777215 <=? 24 + zlen data) eqn:Ebig.
@@ -992,19 +1005,18 @@ Qed.
 
 
 Lemma supported_not_1 t : supported_file t = true -> (t =? 1) = false.
-Proof. intros H. destruct (t =? 1) eqn:E; [|reflexivity]. apply Z.eqb_eq in E. subst t. discriminate. Qed.
+Proof using Type. clear_sec. intros H. destruct (t =? 1) eqn:E; [|reflexivity]. apply Z.eqb_eq in E. subst t. discriminate. Qed.
 
 Lemma fbody_file rs pol h buf kids rest :
   f_nvar h = None -> supported_file (f_type h) = true -> zlen (f_guid h) = 16 ->
   zlen (join4 [] (map node_buf kids)) < 4294967000 ->
-  f_dataoff h = (if attr_large (f_attr h) then 32 else 24) ->
   file_regen h (join4 [] (map node_buf kids)) = (h, buf) ->
   Forall (reparses_sec rs pol) kids ->
-  exists kids2,
-    fbody rs pol (buf ++ rest) = Ok (Some (NFile h buf kids2), pol) /\
+  exists kids2 o,
+    fbody rs pol (buf ++ rest) = Ok (Some (NFile (set_fdo h o) buf kids2), pol) /\
     map strip kids2 = map strip kids /\ f_ext h = zlen buf /\ 24 <= zlen buf.
 Proof.
-  intros Hnv Hsup Hg Hd Hdo Hreg Hkids.
+  intros Hnv Hsup Hg Hd Hreg Hkids.
   set (data := join4 [] (map node_buf kids)) in *.
   destruct (file_regen_shape h data Hg Hd) as
     (hdr & ckh & ckf & attr & size3 & hl & Hhl & Hlen & Hreg' & Hlarge & Hattr & Hs3 & Hbig & Hrd & Hsz).
@@ -1024,29 +1036,1019 @@ Proof.
   assert (Hm4 : zlen hdr mod 4 = 0) by (rewrite Hlen; destruct Hhl; subst hl; reflexivity).
   destruct (loop_file rs pol kids hdr _ 0 Hkids Hn Hm4) as (kids2 & Hloop & Hstrip).
   fold data in Hloop. rewrite Hlen in Hloop. rewrite <- Eb in Hloop.
-  exists kids2. split; [|repeat split; try assumption; try lia].
-  unfold file_body. cbv zeta.
+  exists kids2, hl. split; [|repeat split; try assumption; try lia].
+  unfold file_body, set_fdo. cbv zeta.
+  cbn [f_guid f_ckh f_ckf f_type f_attr f_size3 f_state f_ext f_dataoff f_nvar].
   replace (zlen (buf ++ rest) <? 24) with false by (rewrite zlen_app; lia).
   assert (HB : buf ++ rest = hdr ++ data ++ rest) by (rewrite Eb, <- app_assoc; reflexivity).
   destruct (Hrd (data ++ rest)) as (R0 & R16 & R17 & R18 & R19 & R20 & R23 & R24).
   rewrite <- HB in R0, R16, R17, R18, R19, R20, R23, R24.
   rewrite R0, R16, R17, R18, R19, R20, R23. rewrite Hs3.
   rewrite (supported_not_1 _ Hsup). cbn [andb]. rewrite Hsup. cbn [negb].
-  assert (Hdoff : do0 = hl).
-  { rewrite Hdo, Hlarge. destruct Hhl; subst hl; reflexivity. }
   destruct Hhl; subst hl.
   - change (24 =? 32) with false. cbv iota. cbn [bind andb]. rewrite (Hsz eq_refl).
     replace (zlen (buf ++ rest) <? 24 + zlen data) with false by (rewrite zlen_app; lia).
+    replace (24 + zlen data <? 24) with false by lia.
     replace (sub 0 (24 + zlen data) (buf ++ rest)) with buf by (symmetry; apply sub_app_here; exact Hzb).
-    cbn [bind]. rewrite Hloop. cbn [bind]. rewrite Hdoff. reflexivity.
+    cbn [bind]. rewrite Hloop. cbn [bind]. reflexivity.
   - change (32 =? 32) with true. cbv iota.
     replace (zlen (buf ++ rest) <? 32) with false by (rewrite zlen_app; lia).
     rewrite (R24 eq_refl). cbn [bind andb].
     replace (32 + zlen data =? U64 - 1) with false by (unfold U64; change (2 ^ 64) with 18446744073709551616; lia).
     replace (zlen (buf ++ rest) <? 32 + zlen data) with false by (rewrite zlen_app; lia).
+    replace (32 + zlen data <? 32) with false by lia.
     replace (sub 0 (32 + zlen data) (buf ++ rest)) with buf by (symmetry; apply sub_app_here; exact Hzb).
-    cbn [bind]. rewrite Hloop. cbn [bind]. rewrite Hdoff.
+    cbn [bind]. rewrite Hloop. cbn [bind].
     assert (Es : size3 = 16777215) by lia. rewrite Es. reflexivity.
+Qed.
+
+
+Lemma sub0_app (a b : bytes) ext : ext <= zlen a -> sub 0 ext (a ++ b) = sub 0 ext a.
+Proof using Type. clear_sec. intros. unfold sub. rewrite !zskipn_0. apply zfirstn_app_l. assumption. Qed.
+
+(* a file that parses to a section-less node without recursion does so in any context *)
+Lemma file_leaf_reparse pol h buf : file_leaf_ok pol h buf ->
+  forall rs rest, fbody rs pol (buf ++ rest) = Ok (Some (NFile h buf []), pol).
+Proof.
+  unfold file_leaf_ok, file_body. cbv zeta. intros H rs rest.
+  destruct (zlen buf <? 24) eqn:E24; [discriminate|].
+  pose proof (zlen_nonneg rest) as Hr.
+  rewrite zlen_app. replace (zlen buf + zlen rest <? 24) with false by lia.
+  rewrite (sub_app_l buf rest 0 16) by lia.
+  rewrite (rd_app_l buf rest 16 1), (rd_app_l buf rest 17 1), (rd_app_l buf rest 18 1),
+    (rd_app_l buf rest 19 1), (rd_app_l buf rest 20 3), (rd_app_l buf rest 23 1) by (simpl; lia).
+  assert (Tail : forall ext doff,
+    (if zlen buf <? ext then Err E_SIZE else if ext <? doff then Err E_SIZE else
+      do nv <- (if (rd 18 1 buf =? 1) && bytes_eqb (sub 0 16 buf) NVAR_GUID
+                then if zlen (sub 0 ext buf) <=? doff then Err E_BEYOND else Ok (nvar (zskipn doff (sub 0 ext buf)))
+                else Ok None);
+      if negb (supported_file (rd 18 1 buf))
+      then Ok (Some (NFile (mkFile (sub 0 16 buf) (rd 16 1 buf) (rd 17 1 buf) (rd 18 1 buf) (rd 19 1 buf)
+                                   (rd 20 3 buf) (rd 23 1 buf) ext doff nv) (sub 0 ext buf) []), pol)
+      else do kp <- sections_loop bad_rsec (Z.to_nat ext + 1) (sub 0 ext buf) pol doff 0;
+           let '(kids, pol') := kp in
+           Ok (Some (NFile (mkFile (sub 0 16 buf) (rd 16 1 buf) (rd 17 1 buf) (rd 18 1 buf) (rd 19 1 buf)
+                                   (rd 20 3 buf) (rd 23 1 buf) ext doff nv) (sub 0 ext buf) kids), pol'))
+      = Ok (Some (NFile h buf []), pol) ->
+    (if zlen buf + zlen rest <? ext then Err E_SIZE else if ext <? doff then Err E_SIZE else
+      do nv <- (if (rd 18 1 buf =? 1) && bytes_eqb (sub 0 16 buf) NVAR_GUID
+                then if zlen (sub 0 ext (buf ++ rest)) <=? doff then Err E_BEYOND
+                     else Ok (nvar (zskipn doff (sub 0 ext (buf ++ rest))))
+                else Ok None);
+      if negb (supported_file (rd 18 1 buf))
+      then Ok (Some (NFile (mkFile (sub 0 16 buf) (rd 16 1 buf) (rd 17 1 buf) (rd 18 1 buf) (rd 19 1 buf)
+                                   (rd 20 3 buf) (rd 23 1 buf) ext doff nv) (sub 0 ext (buf ++ rest)) []), pol)
+      else do kp <- sections_loop rs (Z.to_nat ext + 1) (sub 0 ext (buf ++ rest)) pol doff 0;
+           let '(kids, pol') := kp in
+           Ok (Some (NFile (mkFile (sub 0 16 buf) (rd 16 1 buf) (rd 17 1 buf) (rd 18 1 buf) (rd 19 1 buf)
+                                   (rd 20 3 buf) (rd 23 1 buf) ext doff nv) (sub 0 ext (buf ++ rest)) kids), pol'))
+      = Ok (Some (NFile h buf []), pol)).
+  { intros ext doff T. destruct (zlen buf <? ext) eqn:Ee; [discriminate|].
+    replace (zlen buf + zlen rest <? ext) with false by lia.
+    destruct (ext <? doff); [discriminate|].
+    rewrite (sub0_app buf rest ext) by lia.
+    match type of T with context [bind ?e _] => destruct e as [nv| | |] end; cbn [bind] in T |- *; try discriminate.
+    destruct (negb (supported_file (rd 18 1 buf))); [exact T|].
+    rewrite Nat.add_1_r in T |- *. cbn [sections_loop] in T |- *.
+    destruct (doff <? zlen (sub 0 ext buf)); [discriminate|]. exact T. }
+  destruct (rd 20 3 buf =? 16777215) eqn:Es3.
+  - destruct (zlen buf <? 32) eqn:E32.
+    + destruct (forallb (fun x => x =? pol) buf); cbn [bind] in H; [|discriminate].
+      cbn [andb] in H. rewrite Z.eqb_refl in H. discriminate.
+    + replace (zlen buf + zlen rest <? 32) with false by lia.
+      rewrite (rd_app_l buf rest 24 8) by (simpl; lia).
+      cbn [bind andb] in H |- *.
+      destruct (rd 24 8 buf =? U64 - 1); [discriminate|]. apply Tail. exact H.
+  - cbn [bind andb] in H |- *. apply Tail. exact H.
+Qed.
+
+Lemma file_leaf_ext pol h buf : file_leaf_ok pol h buf -> f_ext h = zlen buf /\ 24 <= zlen buf.
+Proof.
+  unfold file_leaf_ok, file_body. cbv zeta. intros H.
+  destruct (zlen buf <? 24) eqn:E24; [discriminate|].
+  assert (Tail : forall ext doff g ckh ckf t a s3 st,
+    (if zlen buf <? ext then Err E_SIZE else if ext <? doff then Err E_SIZE else
+      do nv <- (if (t =? 1) && bytes_eqb g NVAR_GUID
+                then if zlen (sub 0 ext buf) <=? doff then Err E_BEYOND else Ok (nvar (zskipn doff (sub 0 ext buf)))
+                else Ok None);
+      if negb (supported_file t)
+      then Ok (Some (NFile (mkFile g ckh ckf t a s3 st ext doff nv) (sub 0 ext buf) []), pol)
+      else do kp <- sections_loop bad_rsec (Z.to_nat ext + 1) (sub 0 ext buf) pol doff 0;
+           let '(kids, pol') := kp in
+           Ok (Some (NFile (mkFile g ckh ckf t a s3 st ext doff nv) (sub 0 ext buf) kids), pol'))
+      = Ok (Some (NFile h buf []), pol) -> f_ext h = zlen buf).
+  { intros ext doff g ckh ckf t a s3 st T. destruct (zlen buf <? ext) eqn:Ee; [discriminate|].
+    destruct (ext <? doff); [discriminate|].
+    match type of T with context [bind ?e _] => destruct e as [nv| | |] end; cbn [bind] in T; try discriminate.
+    assert (G : forall kids, Ok (Some (NFile (mkFile g ckh ckf t a s3 st ext doff nv) (sub 0 ext buf) kids), pol)
+                  = Ok (Some (NFile h buf []), pol) -> f_ext h = zlen buf).
+    { intros kids E. injection E as Eh Eb _. subst h. cbn [f_ext]. apply sub0_whole; [lia|lia|exact Eb]. }
+    destruct (negb (supported_file t)); [exact (G _ T)|].
+    destruct (sections_loop bad_rsec (Z.to_nat ext + 1) (sub 0 ext buf) pol doff 0) as [[k p]| | |];
+      cbn [bind] in T; try discriminate.
+    injection T as Eh Eb Ek Ep. subst h. cbn [f_ext]. apply sub0_whole; [lia|lia|exact Eb]. }
+  split; [|lia].
+  destruct (rd 20 3 buf =? 16777215) eqn:Es3.
+  - destruct (zlen buf <? 32) eqn:E32.
+    + destruct (forallb (fun x => x =? pol) buf); cbn [bind] in H; [|discriminate].
+      cbn [andb] in H. rewrite Z.eqb_refl in H. discriminate.
+    + cbn [bind andb] in H. destruct (rd 24 8 buf =? U64 - 1); [discriminate|]. eapply Tail. exact H.
+  - cbn [bind andb] in H. eapply Tail. exact H.
+Qed.
+
+
+Definition is_file (n : node) : Prop := match n with NFile _ _ _ => True | _ => False end.
+
+Definition reparses_file (rf : Z -> bytes -> outcome (option node * Z)) (pol : Z) (k : node) : Prop :=
+  24 <= zlen (node_buf k) /\
+  forall rest, exists k2, rf pol (node_buf k ++ rest) = Ok (Some k2, pol) /\
+                          strip k2 = strip k /\ file_ext k2 = zlen (node_buf k).
+
+Lemma canon_file_reparses pol n : canon pol n -> is_file n ->
+  forall d, (height n <= d)%nat -> reparses_file (pfile d) pol n.
+Proof.
+  intros Hc Hf d Hd. destruct n as [| h buf kids | |]; try (destruct Hf).
+  destruct d as [|d]; [simpl in Hd; lia|].
+  inversion Hc; subst.
+  - (* no sections *)
+    match goal with H : file_leaf_ok _ _ _ |- _ =>
+      pose proof (file_leaf_reparse pol h buf H) as Hl; destruct (file_leaf_ext pol h buf H) as [He H24] end.
+    split; [exact H24|]. intros rest. exists (NFile h buf []). rewrite pfile_S, Hl.
+    split; [reflexivity|]. split; [reflexivity|]. exact He.
+  - (* sections *)
+    assert (Hkids : Forall (reparses_sec (psec d) pol) kids).
+    { rewrite Forall_forall in *. intros k Hin.
+      apply (canon_sec_reparses pol k); auto.
+      cbn [height] in Hd. pose proof (height_kids k kids Hin). lia. }
+    match goal with Hr : file_regen h _ = (h, buf) |- _ =>
+      pose proof (fun rest => fbody_file (psec d) pol h buf kids rest ltac:(assumption) ltac:(assumption)
+                                ltac:(assumption) ltac:(assumption) Hr Hkids) as Hfb end.
+    destruct (Hfb []) as (_ & _ & _ & _ & _ & H24).
+    split; [exact H24|]. intros rest. cbn [node_buf].
+    destruct (Hfb rest) as (kids2 & o & Hparse & Hstrip & Hext & _).
+    eexists. rewrite pfile_S. split; [exact Hparse|]. split; [|cbn [file_ext set_fdo f_ext]; exact Hext].
+    cbn [strip]. rewrite Hstrip. reflexivity.
+Qed.
+
+(* ---------- Assemble on canonical trees: a fixed point ---------- *)
+
+Lemma asml_fixed kids : Forall (fun k => forall st, exists st', asm' k st = Ok (k, st')) kids ->
+  forall st, exists st', asml kids st = Ok (kids, st').
+Proof.
+  intros H. induction H as [|k r Hk Hr IH]; intros st; cbn [asm_elems].
+  - eauto.
+  - destruct (Hk st) as (st1 & E1). rewrite E1. cbn [bind].
+    destruct (IH st1) as (st2 & E2). rewrite E2. cbn [bind]. eauto.
+Qed.
+
+Theorem canon_asm_fixed pol n : canon pol n -> forall st, exists st', asm' n st = Ok (n, st').
+Proof.
+  induction n as [h buf kids IH|h buf kids IH| |] using node_ind'; intros Hc st; inversion Hc; subst.
+  - (* leaf section *)
+    rewrite asm_sec. cbn [asm_elems bind]. apply leaf_stable_asm. assumption.
+  - (* compressed section *)
+    rewrite asm_sec.
+    assert (Hk : Forall (fun k => forall st, exists st', asm' k st = Ok (k, st')) kids).
+    { rewrite Forall_forall in *. intros k Hin. apply IH; auto. }
+    destruct (asml_fixed kids Hk st) as ([p f] & E). rewrite E. cbn [bind].
+    unfold sec_asm. destruct kids as [|k0 r]; [congruence|].
+    match goal with Ht : s_type h = 2, Hg : s_gd h = Some g, Hb : Z.land _ 1 <> 0, Hk0 : codec_kind _ <> 0,
+      He : enc _ _ = Some _, Hgen : gen_sec_header h _ = _ |- _ =>
+      rewrite Ht, Hg; change (2 =? 2) with true; cbv iota;
+      replace (Z.land (gd_attrs g) 1 =? 0) with false by lia; cbn [negb];
+      replace (codec_kind (gd_guid g) =? 0) with false by lia;
+      rewrite He; cbn [bind]; rewrite Hgen end.
+    eauto.
+  - (* file without sections *)
+    rewrite asm_file. cbn [asm_elems bind]. unfold file_asm. destruct st as [p f].
+    match goal with H : f_nvar h = None |- _ => rewrite H end. eauto.
+  - (* file with sections *)
+    rewrite asm_file.
+    assert (Hk : Forall (fun k => forall st, exists st', asm' k st = Ok (k, st')) kids).
+    { rewrite Forall_forall in *. intros k Hin. apply IH; auto. }
+    destruct (asml_fixed kids Hk st) as ([p f] & E). rewrite E. cbn [bind].
+    unfold file_asm. destruct kids as [|k0 r]; [congruence|].
+    match goal with H : f_nvar h = None, Hr : file_regen h _ = _ |- _ =>
+      rewrite H; unfold file_regen in Hr;
+      destruct (set_size (f_attr h) (24 + zlen (join4 [] (map node_buf (k0 :: r)))) true) as [ext attr];
+      rewrite Hr end.
+    eauto.
+Qed.
+
+
+(* ---------- Assemble does not look at the metadata [strip] forgets ---------- *)
+
+Definition ostrip (r : outcome (node * ast)) : outcome (node * ast) :=
+  match r with Ok (m, s) => Ok (strip m, s) | Err e => Err e | Panic p => Panic p | Fuel => Fuel end.
+
+Definition olstrip (r : outcome (list node * ast)) : outcome (list node * ast) :=
+  match r with Ok (l, s) => Ok (map strip l, s) | Err e => Err e | Panic p => Panic p | Fuel => Fuel end.
+
+Lemma gen_sec_header_order h o b :
+  gen_sec_header (set_order h o) b = (set_order (fst (gen_sec_header h b)) o, snd (gen_sec_header h b)).
+Proof using Type. clear_sec. reflexivity. Qed.
+
+Lemma sec_asm_strip h buf kids st :
+  secasm (set_order h 0) buf (map strip kids) st = ostrip (secasm h buf kids st).
+Proof using Type. clear_sec.
+  unfold sec_asm. destruct st as [p f]. destruct kids as [|k r]; cbn [map].
+  - change (s_type (set_order h 0)) with (s_type h). change (s_name (set_order h 0)) with (s_name h).
+    change (s_build (set_order h 0)) with (s_build h). change (s_version (set_order h 0)) with (s_version h).
+    change (s_depex (set_order h 0)) with (s_depex h).
+    match goal with |- context [bind ?e _] => destruct e as [[b|]| | |] end; cbn [bind ostrip]; try reflexivity.
+  - rewrite node_buf_strip, map_node_buf_strip.
+    change (s_type (set_order h 0)) with (s_type h). change (s_gd (set_order h 0)) with (s_gd h).
+    match goal with |- context [bind ?e _] => destruct e as [b| | |] end; cbn [bind ostrip]; try reflexivity.
+Qed.
+
+Lemma file_asm_strip h buf kids st :
+  file_asm (set_fdo h 0) buf (map strip kids) st =
+  match file_asm h buf kids st with
+  | Ok (m, s) => Ok (strip m, s) | Err e => Err e | Panic p => Panic p | Fuel => Fuel end.
+Proof using Type. clear_sec.
+  unfold file_asm. destruct st as [p f].
+  change (f_nvar (set_fdo h 0)) with (f_nvar h). change (f_attr (set_fdo h 0)) with (f_attr h).
+  destruct kids as [|k r]; cbn [map].
+  - destruct (f_nvar h); [|reflexivity].
+    destruct (set_size (f_attr h) (24 + zlen b) true) as [ext attr]. reflexivity.
+  - rewrite node_buf_strip, map_node_buf_strip.
+    destruct (set_size _ _ true) as [ext attr]. reflexivity.
+Qed.
+
+Lemma place_files_strip pol limit : forall files fvbuf off,
+  place_files pol limit fvbuf off (map strip files) = place_files pol limit fvbuf off files.
+Proof using Type. clear_sec.
+  induction files as [|f r IH]; intros fvbuf off; [reflexivity|]. cbn [map place_files].
+  rewrite node_buf_strip.
+  replace (match strip f with NFile h _ _ => f_attr h | _ => 0 end)
+    with (match f with NFile h _ _ => f_attr h | _ => 0 end) by (destruct f; reflexivity).
+  destruct (zlen (node_buf f) =? 0); [reflexivity|].
+  match goal with |- (if ?c then _ else _) = _ => destruct c end; [reflexivity|].
+  match goal with |- bind ?e _ = _ => destruct e as [[b1 a1]| | |] end; cbn [bind]; try reflexivity.
+  destruct (insert_file pol b1 a1 (node_buf f)); cbn [bind]; try reflexivity. apply IH.
+Qed.
+
+Lemma asm_vol_strip pol ffs3 h buf files :
+  asm_vol pol ffs3 h buf (map strip files) = asm_vol pol ffs3 h buf files.
+Proof using Type. clear_sec.
+  unfold asm_vol. destruct files as [|f r]; [reflexivity|]. cbn [map].
+  destruct (v_length h <? zlen buf); [reflexivity|].
+  destruct (v_blocks h) as [|b0 bl] eqn:Eb; [reflexivity|].
+  destruct (v_dataoff h <? v_hdrlen h); [reflexivity|].
+  destruct (of_opt 202 (slice 0 (v_dataoff h) buf)) as [hdr| | |]; cbn [bind]; try reflexivity.
+  change (strip f :: map strip r) with (map strip (f :: r)). rewrite place_files_strip. reflexivity.
+Qed.
+
+Lemma asm_strip : forall n st, asm' (strip n) st = ostrip (asm' n st).
+Proof using Type. clear_sec.
+  assert (L : forall kids, Forall (fun n => forall st, asm' (strip n) st = ostrip (asm' n st)) kids ->
+              forall st, asml (map strip kids) st = olstrip (asml kids st)).
+  { induction 1 as [|k r Hk Hr IH]; intros st; cbn [map asm_elems]; [reflexivity|].
+    rewrite Hk. destruct (asm' k st) as [[k' st1]| | |]; cbn [ostrip bind olstrip]; try reflexivity.
+    rewrite IH. destruct (asml r st1) as [[r' st2]| | |]; cbn [olstrip bind]; reflexivity. }
+  induction n as [h buf kids IH|h buf kids IH|h buf kids IH|] using node_ind'; intros st; cbn [strip].
+  - rewrite !asm_sec, (L kids IH). destruct (asml kids st) as [[kids' st1]| | |]; cbn [olstrip bind ostrip]; try reflexivity.
+    apply sec_asm_strip.
+  - rewrite !asm_file, (L kids IH). destruct (asml kids st) as [[kids' st1]| | |]; cbn [olstrip bind ostrip]; try reflexivity.
+    rewrite file_asm_strip. unfold ostrip. reflexivity.
+  - rewrite !asm_volume. destruct (set_polarity _ _); [|reflexivity].
+    rewrite (L kids IH). destruct (asml kids _) as [[kids' st1]| | |]; cbn [olstrip bind ostrip]; try reflexivity.
+    unfold vol_asm. destruct st1 as [p f]. rewrite asm_vol_strip.
+    destruct (asm_vol p f h buf kids') as [[h' nb]| | |]; cbn [bind ostrip strip]; try reflexivity.
+  - reflexivity.
+Qed.
+
+(* equal up to metadata: the second Assemble produces the same buffers *)
+Lemma asm_same_bufs a b st ra sa : strip a = strip b -> asm' a st = Ok (ra, sa) ->
+  exists rb, asm' b st = Ok (rb, sa) /\ strip rb = strip ra.
+Proof using Type. clear_sec.
+  intros E Ha. pose proof (asm_strip a st) as Sa. pose proof (asm_strip b st) as Sb.
+  rewrite E, Sb, Ha in Sa. cbn [ostrip] in Sa.
+  destruct (asm' b st) as [[rb sb]| | |]; cbn [ostrip] in Sa; try discriminate.
+  injection Sa as E1 E2. subst. eauto.
+Qed.
+
+
+(* ---------- idempotence of the header generators ---------- *)
+
+Theorem gen_sec_header_idem h b :
+  gen_sec_header (fst (gen_sec_header h b)) b = gen_sec_header h b.
+Proof. unfold gen_sec_header. destruct (s_gd h); reflexivity. Qed.
+
+Lemma sum_list_app a b : sum_list (a ++ b) = sum_list a + sum_list b.
+Proof using Type. clear_sec. induction a as [|x a IH]; simpl; [reflexivity|]. rewrite IH. lia. Qed.
+
+Definition hdr_const (g : bytes) (t a s3 ext : Z) (large : bool) : Z :=
+  sum_list g + t + a + sum_list (le_enc 3 s3) + (if large then sum_list (le_enc 8 ext) else 0).
+
+Lemma hdr_sum g ckh ckf t a s3 st ext (large : bool) : zlen g = 16 ->
+  sum8 (zfirstn (if large then 32 else 24) (file_header_bytes g ckh ckf t a s3 st ext true)) =
+  (hdr_const g t a s3 ext large + ckh + ckf + st) mod 256.
+Proof using Type. clear_sec.
+  intros Hg. unfold file_header_bytes, zfirstn, hdr_const, sum8. rewrite firstn_app.
+  assert (Lg : length g = 16%nat) by (unfold zlen in Hg; lia).
+  rewrite firstn_all2 by (destruct large; simpl; lia). rewrite Lg.
+  destruct large.
+  - change (Z.to_nat 32 - 16)%nat with 16%nat. cbn [le_enc app firstn].
+    rewrite sum_list_app. cbn [sum_list fold_right]. f_equal. lia.
+  - change (Z.to_nat 24 - 16)%nat with 8%nat. cbn [le_enc app firstn].
+    rewrite sum_list_app. cbn [sum_list fold_right]. f_equal. lia.
+Qed.
+
+(* the header checksum ChecksumAndAssemble writes does not depend on the two checksum bytes that
+   were in the header before: it is the negated sum of the other header bytes *)
+Lemma cka_ckh h ext attr data : zlen (f_guid h) = 16 ->
+  f_ckh (fst (checksum_and_assemble h ext attr data)) =
+  (- hdr_const (f_guid h) (f_type h) attr (write3 ext) ext (attr_large attr)) mod 256.
+Proof using Type. clear_sec.
+  intros Hg. unfold checksum_and_assemble. cbn [fst f_ckh].
+  rewrite (hdr_sum _ _ _ _ _ _ _ _ (attr_large attr) Hg).
+  set (K := hdr_const _ _ _ _ _ _).
+  rewrite Zminus_mod_idemp_r.
+  set (Xm := (K + f_ckh h + f_ckf h + f_state h) mod 256).
+  replace (f_ckh h - (Xm - f_ckf h - f_state h)) with ((f_ckh h + f_ckf h + f_state h) - Xm) by lia.
+  unfold Xm. rewrite Zminus_mod_idemp_r. f_equal. lia.
+Qed.
+
+Lemma cka_fields h ext attr data :
+  let h' := fst (checksum_and_assemble h ext attr data) in
+  f_guid h' = f_guid h /\ f_type h' = f_type h /\ f_attr h' = attr /\ f_state h' = f_state h /\
+  f_size3 h' = write3 ext /\ f_ext h' = ext /\ f_dataoff h' = f_dataoff h /\ f_nvar h' = f_nvar h /\
+  f_ckf h' = (if attr_checksum attr then (0 - sum8 data) mod 256 else 170).
+Proof using Type. clear_sec. cbv zeta. unfold checksum_and_assemble. cbn [fst f_guid f_type f_attr f_state f_size3 f_ext f_dataoff f_nvar f_ckf]. repeat split. Qed.
+
+Lemma cka_eq h1 h2 ext attr data :
+  f_guid h1 = f_guid h2 -> f_type h1 = f_type h2 -> f_state h1 = f_state h2 ->
+  f_dataoff h1 = f_dataoff h2 -> f_nvar h1 = f_nvar h2 ->
+  f_ckh (fst (checksum_and_assemble h1 ext attr data)) = f_ckh (fst (checksum_and_assemble h2 ext attr data)) ->
+  checksum_and_assemble h1 ext attr data = checksum_and_assemble h2 ext attr data.
+Proof using Type. clear_sec.
+  intros Eg Et Es Ed En Ec. unfold checksum_and_assemble in *. cbn [fst f_ckh] in Ec.
+  rewrite Ec. rewrite Eg, Et, Es, Ed, En. reflexivity.
+Qed.
+
+Theorem checksum_and_assemble_idem h ext attr data : zlen (f_guid h) = 16 ->
+  checksum_and_assemble (fst (checksum_and_assemble h ext attr data)) ext attr data =
+  checksum_and_assemble h ext attr data.
+Proof using Type. clear_sec.
+  intros Hg. destruct (cka_fields h ext attr data) as (Eg & Et & Ea & Es & _ & _ & Ed & En & _).
+  apply cka_eq; try assumption.
+  rewrite !cka_ckh by (try rewrite Eg; assumption). rewrite Eg, Et. reflexivity.
+Qed.
+
+Lemma set_size_idem a size : set_size (snd (set_size a size true)) size true = set_size a size true.
+Proof using Type. clear_sec.
+  unfold set_size. destruct (16777215 <=? size); cbn [snd]; rewrite set_large_idem; reflexivity.
+Qed.
+
+Theorem file_regen_idem h data : zlen (f_guid h) = 16 ->
+  file_regen (fst (file_regen h data)) data = file_regen h data.
+Proof using Type. clear_sec.
+  intros Hg. unfold file_regen.
+  destruct (set_size (f_attr h) (24 + zlen data) true) as [ext attr] eqn:Es.
+  destruct (cka_fields h ext attr data) as (_ & _ & Ea & _).
+  rewrite Ea. pose proof (set_size_idem (f_attr h) (24 + zlen data)) as Hi. rewrite Es in Hi. cbn [snd] in Hi.
+  rewrite Hi. apply checksum_and_assemble_idem. assumption.
+Qed.
+
+
+(* ---------- well-formed input trees, and what Assemble makes of them ---------- *)
+
+Definition SZ : Z := 4294967000.   (* every buffer stays below 4 GiB: no uint32 wrap in GenSecHeader *)
+
+Fixpoint small (n : node) : Prop :=
+  let all := fix all (l : list node) : Prop :=
+               match l with [] => True | x :: r => small x /\ all r end in
+  match n with
+  | NSec _ b k => zlen b < SZ /\ all k
+  | NFile _ b k => zlen b < SZ /\ all k
+  | NVol _ b k => zlen b < SZ /\ all k
+  | NPad _ b => zlen b < SZ
+  end.
+
+Lemma small_all l :
+  (fix all (l : list node) : Prop := match l with [] => True | x :: r => small x /\ all r end) l <->
+  Forall small l.
+Proof using Type. clear_sec.
+  induction l as [|x r IH].
+  - split; intros; [constructor|exact I].
+  - split.
+    + intros [Hx Hr]. constructor; [assumption|apply IH; assumption].
+    + intros H. inversion H; subst. split; [assumption|apply IH; assumption].
+Qed.
+
+(* [wf pol t]: the shape of a tree obtained by parsing an image of the reference grammar with
+   compressed sections: leaf sections that parse to themselves and that Assemble leaves alone,
+   GUID-defined sections decoded by a known codec around further such sections, files that hold
+   such sections, files without sections. *)
+Inductive wf (pol : Z) : node -> Prop :=
+| wf_leaf h buf :
+    leaf_ok pol h buf -> leaf_stable h buf -> wf pol (NSec h buf [])
+| wf_comp h buf kids g :
+    kids <> [] -> Forall (wf pol) kids -> Forall is_sec kids ->
+    s_type h = 2 -> s_gd h = Some g -> zlen (gd_guid g) = 16 -> 0 <= gd_attrs g < 65536 ->
+    Z.land (gd_attrs g) 1 <> 0 -> codec_kind (gd_guid g) <> 0 ->
+    gd_kind g = codec_kind (gd_guid g) ->
+    s_name h = [] -> s_build h = 0 -> s_version h = [] -> s_depex h = None ->
+    wf pol (NSec h buf kids)
+| wf_file_leaf h buf :
+    file_leaf_ok pol h buf -> f_nvar h = None -> wf pol (NFile h buf [])
+| wf_file h buf kids :
+    kids <> [] -> Forall (wf pol) kids -> Forall is_sec kids ->
+    f_nvar h = None -> supported_file (f_type h) = true -> zlen (f_guid h) = 16 ->
+    wf pol (NFile h buf kids).
+
+Lemma asml_inv : forall kids st kids' st', asml kids st = Ok (kids', st') ->
+  Forall2 (fun k k' => exists s s', asm' k s = Ok (k', s')) kids kids'.
+Proof using Type. clear_sec.
+  induction kids as [|k r IH]; intros st kids' st' H; cbn [asm_elems] in H.
+  - injection H as <- _. constructor.
+  - destruct (asm' k st) as [[k1 st1]| | |] eqn:E1; cbn [bind] in H; try discriminate.
+    destruct (asml r st1) as [[r1 st2]| | |] eqn:E2; cbn [bind] in H; try discriminate.
+    injection H as <- _. constructor; [eauto|]. eapply IH. exact E2.
+Qed.
+
+Lemma land_set_large a b : Z.land (set_large a b) 254 = Z.land a 254.
+Proof using Type. clear_sec.
+  unfold set_large. destruct b.
+  - rewrite Z.land_lor_distr_l. change (Z.land 1 254) with 0. apply Z.lor_0_r.
+  - rewrite <- Z.land_assoc. reflexivity.
+Qed.
+
+Definition same_kind (a b : node) : Prop :=
+  match a, b with
+  | NSec _ _ _, NSec _ _ _ | NFile _ _ _, NFile _ _ _ | NVol _ _ _, NVol _ _ _ | NPad _ _, NPad _ _ => True
+  | _, _ => False
+  end.
+
+Lemma kids_canon pol kids kids' :
+  Forall2 (fun k k' => exists s s', asm' k s = Ok (k', s')) kids kids' ->
+  Forall (fun t => wf pol t -> forall st t1 st1, asm' t st = Ok (t1, st1) -> small t1 ->
+                   canon pol t1 /\ deep t1 = deep t /\ same_kind t t1) kids ->
+  Forall (wf pol) kids -> Forall is_sec kids -> Forall small kids' ->
+  Forall (canon pol) kids' /\ Forall is_sec kids' /\ map deep kids' = map deep kids.
+Proof.
+  induction 1 as [|k k' r r' (s & s' & Hk) Hr IHr]; intros IH Hwk Hsec Hsk.
+  - repeat split; constructor.
+  - inversion IH; subst. inversion Hwk; subst. inversion Hsec; subst. inversion Hsk; subst.
+    match goal with HP : wf pol k -> _ |- _ =>
+      destruct (HP ltac:(assumption) s k' s' Hk ltac:(assumption)) as (C & Dk & K) end.
+    destruct (IHr ltac:(assumption) ltac:(assumption) ltac:(assumption) ltac:(assumption)) as (C' & S' & D').
+    repeat split.
+    + constructor; assumption.
+    + constructor; [|assumption].
+      destruct k, k'; try destruct K; try (match goal with X : is_sec _ |- _ => destruct X end); exact I.
+    + cbn [map]. rewrite Dk, D'. reflexivity.
+Qed.
+
+(* Assemble turns a well-formed tree into a canonical one with the same decompressed content *)
+Theorem asm_canon pol : forall t, wf pol t -> forall st t1 st1, asm' t st = Ok (t1, st1) -> small t1 ->
+  canon pol t1 /\ deep t1 = deep t /\ same_kind t t1.
+Proof.
+  induction t as [h buf kids IH|h buf kids IH| |] using node_ind'; intros Hw st t1 st1 Ha Hs; inversion Hw; subst.
+  - (* leaf section *)
+    rewrite asm_sec in Ha. cbn [asm_elems bind] in Ha.
+    match goal with H : leaf_stable h buf |- _ => destruct (leaf_stable_asm h buf st H) as (st' & E) end.
+    rewrite E in Ha. injection Ha as <- _. split; [constructor; assumption|]. split; reflexivity.
+  - (* compressed section *)
+    rewrite asm_sec in Ha.
+    destruct (asml kids st) as [[kids' st2]| | |] eqn:El; cbn [bind] in Ha; try discriminate.
+    pose proof (asml_inv _ _ _ _ El) as F2.
+    unfold sec_asm in Ha. destruct st2 as [p f].
+    destruct kids' as [|k0' r'].
+    { inversion F2; subst. congruence. }
+    match goal with Ht : s_type h = 2, Hg : s_gd h = Some g, Hb : Z.land _ 1 <> 0, Hk0 : codec_kind _ <> 0 |- _ =>
+      rewrite Ht, Hg in Ha; change (2 =? 2) with true in Ha; cbv iota in Ha;
+      replace (Z.land (gd_attrs g) 1 =? 0) with false in Ha by lia; cbn [negb] in Ha;
+      replace (codec_kind (gd_guid g) =? 0) with false in Ha by lia end.
+    destruct (enc (codec_kind (gd_guid g)) (join4 [] (map node_buf (k0' :: r')))) as [c|] eqn:Ec;
+      cbn [bind] in Ha; [|discriminate].
+    destruct (gen_sec_header h c) as [h' nb] eqn:Eg. injection Ha as <- _.
+    cbn [small] in Hs. destruct Hs as [Hsz Hsk]. apply (proj1 (small_all (k0' :: r'))) in Hsk.
+    (* the children *)
+    assert (Hkids : Forall (canon pol) (k0' :: r') /\ Forall is_sec (k0' :: r') /\
+                    map deep (k0' :: r') = map deep kids)
+      by (apply (kids_canon pol kids (k0' :: r') F2 IH); assumption).
+    destruct Hkids as (Hc' & Hs' & Hd').
+    pose proof (f_equal fst Eg) as Eh'. cbn [fst] in Eh'.
+    assert (Hcz : zlen c < SZ).
+    { pose proof (f_equal snd Eg) as Enb. cbn [snd] in Enb. unfold gen_sec_header in Enb. cbn [snd] in Enb.
+      rewrite <- Enb in Hsz. rewrite !zlen_app in Hsz.
+      match type of Hsz with ?a + (?b + _) < _ => pose proof (zlen_nonneg (A:=Z)) as Hnn end.
+      repeat match type of Hsz with context [zlen ?x] => lazymatch x with c => fail | _ => let H := fresh in pose proof (zlen_nonneg x) as H; generalize dependent (zlen x); intros end end.
+      lia. }
+    split; [|split; [|exact I]].
+    + apply (canon_comp pol h' nb (k0' :: r') (mkGd (gd_guid g) (gd_dataoff (match s_gd h' with Some x => x | None => g end)) (gd_attrs g) (gd_kind g)) c);
+        try assumption; try discriminate; try (rewrite <- Eh'; unfold gen_sec_header; cbn [fst s_type s_name s_build s_version s_depex]; assumption).
+      * rewrite <- Eh'. unfold gen_sec_header. cbn [fst s_gd].
+        match goal with Hg : s_gd h = Some g |- _ => rewrite Hg end. reflexivity.
+      * rewrite <- Eh'. rewrite gen_sec_header_idem. rewrite Eg. reflexivity.
+    + cbn [deep]. destruct kids as [|k0 r]; [congruence|].
+      rewrite Hd'. f_equal. f_equal.
+      * rewrite <- Eh'. reflexivity.
+      * rewrite <- Eh'. unfold gen_sec_header. cbn [fst s_gd].
+        match goal with Hg : s_gd h = Some g |- _ => rewrite Hg end. reflexivity.
+  - (* file without sections *)
+    rewrite asm_file in Ha. cbn [asm_elems bind] in Ha. unfold file_asm in Ha. destruct st as [p f].
+    match goal with H : f_nvar h = None |- _ => rewrite H in Ha end. injection Ha as <- _.
+    split; [constructor; assumption|]. split; reflexivity.
+  - (* file with sections *)
+    rewrite asm_file in Ha.
+    destruct (asml kids st) as [[kids' st2]| | |] eqn:El; cbn [bind] in Ha; try discriminate.
+    pose proof (asml_inv _ _ _ _ El) as F2.
+    unfold file_asm in Ha. destruct st2 as [p f].
+    destruct kids' as [|k0' r'].
+    { inversion F2; subst. congruence. }
+    match goal with H : f_nvar h = None |- _ => rewrite H in Ha end.
+    pose proof (file_regen_idem h (join4 [] (map node_buf (k0' :: r'))) ltac:(assumption)) as Hidem.
+    unfold file_regen in Hidem at 2 3.
+    destruct (set_size (f_attr h) (24 + zlen (join4 [] (map node_buf (k0' :: r')))) true) as [ext attr] eqn:Ess.
+    destruct (checksum_and_assemble h ext attr (join4 [] (map node_buf (k0' :: r')))) as [h' nb] eqn:Eck.
+    injection Ha as <- _. cbn [fst] in Hidem.
+    cbn [small] in Hs. destruct Hs as [Hsz Hsk]. apply (proj1 (small_all (k0' :: r'))) in Hsk.
+    assert (Hkids : Forall (canon pol) (k0' :: r') /\ Forall is_sec (k0' :: r') /\
+                    map deep (k0' :: r') = map deep kids)
+      by (apply (kids_canon pol kids (k0' :: r') F2 IH); assumption).
+    destruct Hkids as (Hc' & Hs' & Hd').
+    destruct (cka_fields h ext attr (join4 [] (map node_buf (k0' :: r')))) as (Eg & Et & Ea & Est & _ & _ & _ & En & _).
+    rewrite Eck in Eg, Et, Ea, Est, En. cbn [fst] in Eg, Et, Ea, Est, En.
+    assert (Hdz : zlen (join4 [] (map node_buf (k0' :: r'))) < SZ).
+    { pose proof (f_equal snd Eck) as Enb. cbn [snd] in Enb. unfold checksum_and_assemble in Enb. cbn [snd] in Enb.
+      rewrite <- Enb in Hsz. rewrite zlen_app in Hsz.
+      match type of Hsz with zlen ?x + _ < _ => pose proof (zlen_nonneg x) end. lia. }
+    split; [|split; [|exact I]].
+    + apply canon_file; try assumption; try discriminate; try congruence.
+    + cbn [deep]. destruct kids as [|k0 r]; [congruence|].
+      rewrite Hd'. f_equal. rewrite Eg, Et, Est, Ea.
+      assert (Hattr : attr = set_large (f_attr h) (16777215 <=? 24 + zlen (join4 [] (map node_buf (k0' :: r'))))).
+      { unfold set_size in Ess. destruct (16777215 <=? _); injection Ess as _ <-; reflexivity. }
+      rewrite Hattr, land_set_large. reflexivity.
+Qed.
+
+
+(* ---------- the property, for sections and files ---------- *)
+
+Lemma same_kind_sec a b : same_kind a b -> is_sec a -> is_sec b.
+Proof using Type. clear_sec. destruct a, b; simpl; tauto. Qed.
+
+Lemma same_kind_file a b : same_kind a b -> is_file a -> is_file b.
+Proof using Type. clear_sec. destruct a, b; simpl; tauto. Qed.
+
+Lemma second_save pol t1 t2 : canon pol t1 -> strip t2 = strip t1 ->
+  forall st, exists t3 st3, asm' t2 st = Ok (t3, st3) /\ node_buf t3 = node_buf t1.
+Proof.
+  intros Hc Hs st. destruct (canon_asm_fixed pol t1 Hc st) as (s1 & E1).
+  destruct (asm_same_bufs t1 t2 st t1 s1 (eq_sym Hs) E1) as (rb & E2 & E3).
+  exists rb, s1. split; [exact E2|]. rewrite <- (node_buf_strip rb), E3. apply node_buf_strip.
+Qed.
+
+(* Stage 1 (sections): save a well-formed section tree, parse the bytes that were written (in any
+   context [rest], at any index): the decompressed tree is the one we started from, and saving
+   the re-parsed tree writes the same bytes again. *)
+Theorem sec_preserved_and_fixed pol t : wf pol t -> is_sec t ->
+  forall st t1 st1, asm' t st = Ok (t1, st1) -> small t1 ->
+  forall d rest i, (height t1 <= d)%nat ->
+  exists t2, psec d pol (node_buf t1 ++ rest) i = Ok (t2, pol) /\
+             deep t2 = deep t /\
+             forall st', exists t3 st3, asm' t2 st' = Ok (t3, st3) /\ node_buf t3 = node_buf t1.
+Proof.
+  intros Hw Hs st t1 st1 Ha Hsm d rest i Hd.
+  destruct (asm_canon pol t Hw st t1 st1 Ha Hsm) as (Hc & Hdeep & Hk).
+  pose proof (canon_sec_reparses pol t1 Hc (same_kind_sec _ _ Hk Hs) d Hd) as [_ Hr].
+  destruct (Hr rest i) as (t2 & Hp & Hst & _).
+  exists t2. split; [exact Hp|]. split.
+  - rewrite (strip_deep t2 t1 Hst). exact Hdeep.
+  - apply (second_save pol t1 t2 Hc Hst).
+Qed.
+
+(* Stage 2 (files) *)
+Theorem file_preserved_and_fixed pol t : wf pol t -> is_file t ->
+  forall st t1 st1, asm' t st = Ok (t1, st1) -> small t1 ->
+  forall d rest, (height t1 <= d)%nat ->
+  exists t2, pfile d pol (node_buf t1 ++ rest) = Ok (Some t2, pol) /\
+             deep t2 = deep t /\
+             forall st', exists t3 st3, asm' t2 st' = Ok (t3, st3) /\ node_buf t3 = node_buf t1.
+Proof.
+  intros Hw Hs st t1 st1 Ha Hsm d rest Hd.
+  destruct (asm_canon pol t Hw st t1 st1 Ha Hsm) as (Hc & Hdeep & Hk).
+  pose proof (canon_file_reparses pol t1 Hc (same_kind_file _ _ Hk Hs) d Hd) as [_ Hr].
+  destruct (Hr rest) as (t2 & Hp & Hst & _).
+  exists t2. split; [exact Hp|]. split.
+  - rewrite (strip_deep t2 t1 Hst). exact Hdeep.
+  - apply (second_save pol t1 t2 Hc Hst).
+Qed.
+
+
+
+(* the base case spelt out: one compressed section around leaf sections *)
+Lemma leaf_reparses pol h buf : leaf_ok pol h buf ->
+  forall d, (1 <= d)%nat -> reparses_sec (psec d) pol (NSec h buf []).
+Proof.
+  intros Hl d Hd. destruct d as [|d]; [lia|].
+  pose proof (leaf_reparse pol h buf Hl) as Hr. destruct Hl as [Hp _].
+  assert (H4 : 4 <= zlen buf).
+  { rewrite section_body_eq in Hp. destruct (zlen buf <? 4) eqn:E; [discriminate|]. lia. }
+  split; [cbn [node_buf]; lia|]. intros rest i. cbn [node_buf].
+  exists (NSec (set_order h i) buf []). rewrite psec_S, Hr. split; [reflexivity|]. split; [reflexivity|].
+  cbn [sec_ext set_order s_ext].
+  rewrite section_body_eq in Hp. destruct (zlen buf <? 4); [discriminate|].
+  destruct (sec_head buf) as [[hl ext]| | |]; cbn [bind] in Hp; try discriminate.
+  destruct (zlen buf <? ext) eqn:Ee; [discriminate|].
+  destruct (ext <? hl) eqn:Ehl; [discriminate|].
+  pose proof (sec_tail_type _ _ _ _ _ _ _ _ _ _ _ _ _ Hp) as (_ & _ & Hext & _ & Hb).
+  rewrite Hext. apply sub0_whole; [lia|lia|symmetry; exact Hb].
+Qed.
+
+Theorem compressed_leaves_roundtrip pol h g kids c :
+  Forall (fun k => exists hk bk, k = NSec hk bk [] /\ leaf_ok pol hk bk) kids ->
+  s_type h = 2 -> s_gd h = Some g -> zlen (gd_guid g) = 16 -> 0 <= gd_attrs g < 65536 ->
+  Z.land (gd_attrs g) 1 <> 0 -> codec_kind (gd_guid g) <> 0 ->
+  enc (codec_kind (gd_guid g)) (join4 [] (map node_buf kids)) = Some c -> zlen c < SZ ->
+  forall d rest i, (2 <= d)%nat ->
+  exists h2 kids2,
+    psec d pol (snd (gen_sec_header h c) ++ rest) i = Ok (NSec h2 (snd (gen_sec_header h c)) kids2, pol) /\
+    map strip kids2 = map strip kids /\ map node_buf kids2 = map node_buf kids.
+Proof.
+  intros Hk Ht Hg Hg16 Ha Hb Hc He Hz d rest i Hd.
+  destruct d as [|d]; [lia|].
+  assert (Hkids : Forall (reparses_sec (psec d) pol) kids).
+  { rewrite Forall_forall in *. intros k Hin. destruct (Hk k Hin) as (hk & bk & -> & Hl).
+    apply leaf_reparses; [assumption|lia]. }
+  destruct (gen_sec_header h c) as [h' nb] eqn:Eg. cbn [snd].
+  destruct (sbody_comp (psec d) (pfv d) pol h h' g c nb kids rest i Ht Hg Hg16 Ha Hb Hc He Hz Eg Hkids)
+    as (kids2 & Hp & Hs & _).
+  eexists. exists kids2. rewrite psec_S. split; [exact Hp|]. split; [exact Hs|]. apply strip_bufs. exact Hs.
+Qed.
+
+(* ---------- the FFS2 -> FFS3 switch ---------- *)
+
+Lemma sub_zfirstn lo len off (b : bytes) : 0 <= lo -> 0 <= len -> lo + len <= off -> off <= zlen b ->
+  sub lo len (zfirstn off b) = sub lo len b.
+Proof using Type. clear_sec.
+  intros. rewrite <- (zfirstn_zskipn off b) at 2.
+  symmetry. apply sub_app_l; try lia. rewrite zlen_zfirstn by lia. lia.
+Qed.
+
+Lemma sub_splice_lo lo len off d (b : bytes) : 0 <= lo -> 0 <= len -> lo + len <= off ->
+  off + zlen d <= zlen b -> sub lo len (splice off d b) = sub lo len b.
+Proof using Type. clear_sec.
+  intros. unfold splice. pose proof (zlen_nonneg d).
+  rewrite sub_app_l by (try rewrite zlen_zfirstn; lia). apply sub_zfirstn; lia.
+Qed.
+
+Lemma asm_vol_ffs3 pol h buf files h' nb :
+  asm_vol pol true h buf files = Ok (h', nb) -> files <> [] -> v_guid h = FFS2 ->
+  v_guid h' = FFS3 /\ sub 16 16 nb = FFS3.
+Proof using Type. clear_sec.
+  unfold asm_vol. intros H Hne Hg. destruct files as [|f0 fr]; [congruence|].
+  destruct (v_length h <? zlen buf); [discriminate|].
+  destruct (v_blocks h) as [|b0 bl] eqn:Eb; [discriminate|].
+  destruct (v_dataoff h <? v_hdrlen h); [discriminate|].
+  destruct (of_opt 202 (slice 0 (v_dataoff h) buf)) as [hdr| | |]; cbn [bind] in H; try discriminate.
+  destruct (place_files pol _ hdr (v_dataoff h) (f0 :: fr)) as [b1| | |]; cbn [bind] in H; try discriminate.
+  destruct ((v_length h <? zlen b1) && negb (v_resizable h)); [discriminate|].
+  match type of H with bind ?e _ = _ => destruct e as [[len blocks]| | |] end; cbn [bind] in H; try discriminate.
+  set (b2 := if zlen b1 <? len then b1 ++ zrepeat pol (len - zlen b1) else b1) in *.
+  destruct (zlen b2 <? 40) eqn:E40; [discriminate|].
+  rewrite Hg in H. change (bytes_eqb FFS2 FFS2) with true in H. cbn [andb] in H.
+  set (b3 := splice 32 (le_enc 8 len) b2) in *.
+  assert (Z3 : zlen b3 = zlen b2) by (unfold b3; apply zlen_splice; rewrite ?le8; lia).
+  set (b4 := splice 16 FFS3 b3) in *.
+  assert (Z4 : zlen b4 = zlen b3) by (unfold b4; apply zlen_splice; [lia|change (zlen FFS3) with 16; lia]).
+  destruct blocks as [|[c s] bt]; [discriminate|].
+  destruct (zlen b4 <? 60) eqn:E60; [discriminate|].
+  set (b5 := splice 56 (le_enc 4 c) b4) in *.
+  assert (Z5 : zlen b5 = zlen b4) by (unfold b5; apply zlen_splice; rewrite ?le4; lia).
+  set (b6 := splice 50 [0; 0] b5) in *.
+  assert (Z6 : zlen b6 = zlen b5) by (unfold b6; apply zlen_splice; [lia|change (zlen [0;0]) with 2; lia]).
+  destruct (slice 0 (v_hdrlen h) b6) as [hb|]; [|discriminate].
+  destruct (negb (Z.even (v_hdrlen h))); [discriminate|].
+  injection H as <- <-. cbn [v_guid]. split; [reflexivity|].
+  assert (L2 : forall x y : Z, zlen [x; y] = 2) by reflexivity.
+  rewrite sub_splice_lo by (rewrite ?L2; lia).
+  unfold b6. rewrite sub_splice_lo by (change (zlen [0;0]) with 2; lia).
+  unfold b5. rewrite sub_splice_lo by (rewrite ?le4; lia).
+  unfold b4. change 16 with (zlen FFS3) at 2. apply sub_splice; [lia|change (zlen FFS3) with 16; lia].
+Qed.
+
+Lemma asml_app : forall a b st,
+  asml (a ++ b) st =
+  (do r <- asml a st; let '(a', s) := r in do r2 <- asml b s; let '(b', s') := r2 in Ok (a' ++ b', s')).
+Proof using Type. clear_sec.
+  induction a as [|x a IH]; intros b st; cbn [app asm_elems bind].
+  - destruct (asml b st) as [[b' s']| | |]; reflexivity.
+  - destruct (asm' x st) as [[x' s1]| | |]; cbn [bind]; try reflexivity.
+    rewrite IH. destruct (asml a s1) as [[a' s2]| | |]; cbn [bind]; try reflexivity.
+    destruct (asml b s2) as [[b' s3]| | |]; cbn [bind]; reflexivity.
+Qed.
+
+(* once raised, the flag stays raised until the enclosing volume consumes it *)
+Lemma asm_flag_mono : forall n p n' st', asm' n (p, true) = Ok (n', st') -> snd st' = true.
+Proof using Type. clear_sec.
+  assert (L : forall kids, Forall (fun n => forall p n' st', asm' n (p, true) = Ok (n', st') -> snd st' = true) kids ->
+              forall p kids' st', asml kids (p, true) = Ok (kids', st') -> snd st' = true).
+  { induction 1 as [|k r Hk Hr IH]; intros p kids' st' H; cbn [asm_elems] in H.
+    - injection H as _ <-. reflexivity.
+    - destruct (asm' k (p, true)) as [[k1 [p1 f1]]| | |] eqn:E1; cbn [bind] in H; try discriminate.
+      pose proof (Hk _ _ _ E1) as F. cbn [snd] in F. subst f1.
+      destruct (asml r (p1, true)) as [[r1 s2]| | |] eqn:E2; cbn [bind] in H; try discriminate.
+      injection H as _ <-. eapply IH. exact E2. }
+  induction n as [h buf kids IH|h buf kids IH|h buf kids IH|] using node_ind'; intros p n' st' H.
+  - rewrite asm_sec in H. destruct (asml kids (p, true)) as [[kids' [p1 f1]]| | |] eqn:El; cbn [bind] in H; try discriminate.
+    pose proof (L kids IH _ _ _ El) as F. cbn [snd] in F. subst f1.
+    unfold sec_asm in H. destruct kids'.
+    + match type of H with context [bind ?e _] => destruct e as [[b|]| | |] end; cbn [bind] in H; try discriminate.
+      * destruct (gen_sec_header h b). injection H as _ <-. reflexivity.
+      * injection H as _ <-. reflexivity.
+    + match type of H with context [bind ?e _] => destruct e as [b| | |] end; cbn [bind] in H; try discriminate.
+      destruct (gen_sec_header h b). injection H as _ <-. reflexivity.
+  - rewrite asm_file in H. destruct (asml kids (p, true)) as [[kids' [p1 f1]]| | |] eqn:El; cbn [bind] in H; try discriminate.
+    pose proof (L kids IH _ _ _ El) as F. cbn [snd] in F. subst f1.
+    unfold file_asm in H.
+    destruct kids'; [destruct (f_nvar h)|].
+    + destruct (set_size _ _ _). destruct (checksum_and_assemble _ _ _ _). injection H as _ <-. reflexivity.
+    + injection H as _ <-. reflexivity.
+    + destruct (set_size _ _ _). destruct (checksum_and_assemble _ _ _ _). injection H as _ <-. reflexivity.
+  - rewrite asm_volume in H. destruct (set_polarity _ _); [|discriminate].
+    destruct (asml kids _) as [[kids' s1]| | |]; cbn [bind] in H; try discriminate.
+    destruct (vol_asm h buf kids' s1) as [[n1 s2]| | |]; cbn [bind] in H; try discriminate.
+    injection H as _ <-. reflexivity.
+  - cbn [asm] in H. injection H as _ <-. reflexivity.
+Qed.
+
+Lemma asml_flag_mono kids p kids' st' : asml kids (p, true) = Ok (kids', st') -> snd st' = true.
+Proof using Type. clear_sec.
+  revert p kids' st'. induction kids as [|k r IH]; intros p kids' st' H; cbn [asm_elems] in H.
+  - injection H as _ <-. reflexivity.
+  - destruct (asm' k (p, true)) as [[k1 [p1 f1]]| | |] eqn:E1; cbn [bind] in H; try discriminate.
+    pose proof (asm_flag_mono _ _ _ _ E1) as F. cbn [snd] in F. subst f1.
+    destruct (asml r (p1, true)) as [[r1 s2]| | |] eqn:E2; cbn [bind] in H; try discriminate.
+    injection H as _ <-. eapply IH. exact E2.
+Qed.
+
+(* a file that is re-assembled (it has sections) and comes out larger than 0xFFFFFF raises the flag;
+   so does a section *)
+Lemma file_raises h buf kids st h' nb kids' st' :
+  asm' (NFile h buf kids) st = Ok (NFile h' nb kids', st') -> kids <> [] -> 16777215 < f_ext h' ->
+  snd st' = true.
+Proof using Type. clear_sec.
+  intros H Hne Hbig. rewrite asm_file in H.
+  destruct (asml kids st) as [[k1 [p f]]| | |] eqn:El; cbn [bind] in H; try discriminate.
+  pose proof (asml_inv _ _ _ _ El) as F2. unfold file_asm in H.
+  destruct k1 as [|x r]; [inversion F2; subst; congruence|].
+  assert (G : forall data, (let '(ext, attr) := set_size (f_attr h) (24 + zlen data) true in
+                            let '(h'0, nb0) := checksum_and_assemble h ext attr data in
+                            Ok (NFile h'0 nb0 (x :: r), (p, f || (16777215 <? ext)))) = Ok (NFile h' nb kids', st') ->
+                           snd st' = true).
+  { clear H. intros data G. destruct (set_size (f_attr h) (24 + zlen data) true) as [ext attr].
+    pose proof (cka_fields h ext attr data) as (_ & _ & _ & _ & _ & Ee & _).
+    destruct (checksum_and_assemble h ext attr data) as [h0 nb0]. cbn [fst] in Ee.
+    injection G as <- _ _ <-. cbn [snd]. rewrite Ee in Hbig.
+    replace (16777215 <? ext) with true by lia. apply orb_true_r. }
+  destruct (f_nvar h); eapply G; exact H.
+Qed.
+
+Lemma sec_raises h buf kids st h' nb kids' st' :
+  asm' (NSec h buf kids) st = Ok (NSec h' nb kids', st') -> kids <> [] -> 16777215 < s_ext h' ->
+  snd st' = true.
+Proof using Type. clear_sec.
+  intros H Hne Hbig. rewrite asm_sec in H.
+  destruct (asml kids st) as [[k1 [p f]]| | |] eqn:El; cbn [bind] in H; try discriminate.
+  pose proof (asml_inv _ _ _ _ El) as F2. unfold sec_asm in H.
+  destruct k1 as [|x r]; [inversion F2; subst; congruence|].
+  match type of H with context [bind ?e _] => destruct e as [b| | |] end; cbn [bind] in H; try discriminate.
+  destruct (gen_sec_header h b) as [h0 nb0]. injection H as <- _ _ <-. cbn [snd].
+  replace (16777215 <? s_ext h0) with true by lia. apply orb_true_r.
+Qed.
+
+Theorem ffs3_switch h buf l1 k l2 st h' nb kids' st' :
+  asm' (NVol h buf (l1 ++ k :: l2)) st = Ok (NVol h' nb kids', st') -> v_guid h = FFS2 ->
+  (forall s k1 s1, asm' k s = Ok (k1, s1) -> snd s1 = true) ->
+  v_guid h' = FFS3 /\ sub 16 16 nb = FFS3 /\ snd st' = snd st.
+Proof using Type. clear_sec.
+  intros H Hg Hk. rewrite asm_volume in H. destruct (set_polarity _ _) as [pol0|]; [|discriminate].
+  rewrite asml_app in H.
+  destruct (asml l1 (pol0, false)) as [[l1' s1]| | |]; cbn [bind] in H; try discriminate.
+  cbn [asm_elems] in H.
+  destruct (asm' k s1) as [[k' [p2 f2]]| | |] eqn:Ek; cbn [bind] in H; try discriminate.
+  pose proof (Hk _ _ _ Ek) as F. cbn [snd] in F. subst f2.
+  destruct (asml l2 (p2, true)) as [[l2' [p3 f3]]| | |] eqn:E2; cbn [bind] in H; try discriminate.
+  pose proof (asml_flag_mono _ _ _ _ E2) as F. cbn [snd] in F. subst f3.
+  unfold vol_asm in H.
+  destruct (asm_vol p3 true h buf (l1' ++ k' :: l2')) as [[h1 nb1]| | |] eqn:Ev; cbn [bind] in H; try discriminate.
+  injection H as <- <- _ <-.
+  destruct (asm_vol_ffs3 _ _ _ _ _ _ Ev) as [G1 G2]; try assumption.
+  { destruct l1'; discriminate. }
+  repeat split; assumption.
+Qed.
+
+
+(* ---------- a nested (resizable) volume that has to grow ---------- *)
+
+Lemma sub_splice_hi lo len off d (b : bytes) : 0 <= off -> 0 <= len -> off + zlen d <= lo ->
+  lo + len <= zlen b -> sub lo len (splice off d b) = sub lo len b.
+Proof using Type. clear_sec.
+  intros. unfold splice. pose proof (zlen_nonneg d).
+  replace (zfirstn off b ++ d ++ zskipn (off + zlen d) b) with ((zfirstn off b ++ d) ++ zskipn (off + zlen d) b)
+    by (rewrite <- app_assoc; reflexivity).
+  rewrite (sub_app_skip _ _ lo len (off + zlen d)) by (try rewrite zlen_app, zlen_zfirstn; lia).
+  unfold sub. rewrite zskipn_zskipn by lia. f_equal. f_equal. lia.
+Qed.
+
+Theorem nested_volume_grows pol ffs3 h buf files h' nb c s rest hdr b1 :
+  files <> [] -> v_resizable h = true -> v_blocks h = (c, s) :: rest ->
+  slice 0 (v_dataoff h) buf = Some hdr ->
+  place_files pol None hdr (v_dataoff h) files = Ok b1 ->
+  v_length h < zlen b1 ->
+  asm_vol pol ffs3 h buf files = Ok (h', nb) ->
+  let len := align_go (zlen b1) s in
+  v_length h' = len /\ v_blocks h' = ((len / s) mod U32, s) :: rest /\
+  zlen nb = Z.max (zlen b1) len /\
+  sub 32 8 nb = le_enc 8 len /\ sub 56 4 nb = le_enc 4 ((len / s) mod U32).
+Proof using Type. clear_sec.
+  intros Hne Hres Hbl Hsl Hpl Hgrow H. cbv zeta. unfold asm_vol in H.
+  destruct files as [|f0 fr]; [congruence|].
+  destruct (v_length h <? zlen buf); [discriminate|].
+  rewrite Hbl in H.
+  destruct (v_dataoff h <? v_hdrlen h); [discriminate|].
+  rewrite Hsl, Hres in H. cbn [of_opt bind] in H. rewrite Hpl in H. cbn [bind] in H.
+  replace (v_length h <? zlen b1) with true in H by lia. cbn [negb andb] in H.
+  destruct (s =? 0); [discriminate|]. cbn [bind] in H.
+  set (len := align_go (zlen b1) s) in *.
+  set (b2 := if zlen b1 <? len then b1 ++ zrepeat pol (len - zlen b1) else b1) in *.
+  assert (Z2 : zlen b2 = Z.max (zlen b1) len).
+  { unfold b2. destruct (zlen b1 <? len) eqn:E; [rewrite zlen_app, zlen_zrepeat by lia|]; lia. }
+  destruct (zlen b2 <? 40) eqn:E40; [discriminate|].
+  set (b3 := splice 32 (le_enc 8 len) b2) in *.
+  assert (Z3 : zlen b3 = zlen b2) by (unfold b3; apply zlen_splice; rewrite ?le8; lia).
+  set (b4 := if ffs3 && bytes_eqb (v_guid h) FFS2 then splice 16 FFS3 b3 else b3) in *.
+  assert (Z4 : zlen b4 = zlen b3).
+  { unfold b4. destruct (ffs3 && bytes_eqb (v_guid h) FFS2); [|reflexivity].
+    apply zlen_splice; [lia|change (zlen FFS3) with 16; lia]. }
+  destruct (zlen b4 <? 60) eqn:E60; [discriminate|].
+  set (cnt := (len / s) mod U32) in *.
+  set (b5 := splice 56 (le_enc 4 cnt) b4) in *.
+  assert (Z5 : zlen b5 = zlen b4) by (unfold b5; apply zlen_splice; rewrite ?le4; lia).
+  set (b6 := splice 50 [0; 0] b5) in *.
+  assert (Z6 : zlen b6 = zlen b5) by (unfold b6; apply zlen_splice; [lia|change (zlen [0;0]) with 2; lia]).
+  destruct (slice 0 (v_hdrlen h) b6) as [hb|]; [|discriminate].
+  destruct (negb (Z.even (v_hdrlen h))); [discriminate|].
+  pose proof (f_equal fst (f_equal (fun o => match o with Ok x => x | _ => (h, []) end) H)) as Eh.
+  pose proof (f_equal snd (f_equal (fun o => match o with Ok x => x | _ => (h, []) end) H)) as En.
+  cbn [fst snd] in Eh, En. clear H. subst h' nb. cbn [v_length v_blocks].
+  set (ck := le_enc 2 ((0 - sum16 hb) mod 65536)).
+  assert (Zck : zlen ck = 2) by apply le2.
+  split; [reflexivity|]. split; [reflexivity|]. split.
+  { rewrite zlen_splice by lia. lia. }
+  split.
+  - rewrite sub_splice_lo by lia. unfold b6. rewrite sub_splice_lo by (change (zlen [0;0]) with 2; lia).
+    unfold b5. rewrite sub_splice_lo by (rewrite ?le4; lia).
+    assert (E3 : sub 32 8 b3 = le_enc 8 len).
+    { unfold b3. change 8 with (zlen (le_enc 8 len)) at 1. apply sub_splice; rewrite ?le8; lia. }
+    unfold b4. destruct (ffs3 && bytes_eqb (v_guid h) FFS2); [|exact E3].
+    rewrite sub_splice_hi by (change (zlen FFS3) with 16; lia). exact E3.
+  - rewrite sub_splice_hi by lia. unfold b6. rewrite sub_splice_hi by (change (zlen [0;0]) with 2; lia).
+    unfold b5. change 4 with (zlen (le_enc 4 cnt)) at 1. apply sub_splice; rewrite ?le4; lia.
+Qed.
+
+(* Go's Align for a power-of-two block size is rounding up to whole blocks *)
+Lemma land_high_mask x k : 0 <= k < 64 -> 0 <= x < 2 ^ 64 ->
+  Z.land x (2 ^ 64 - 2 ^ k) = (x / 2 ^ k) * 2 ^ k.
+Proof using Type. clear_sec.
+  intros Hk Hx.
+  assert (Hm : 2 ^ 64 - 2 ^ k = Z.shiftl (Z.ones (64 - k)) k).
+  { rewrite Z.shiftl_mul_pow2 by lia. rewrite Z.ones_equiv. unfold Z.pred.
+    rewrite Z.mul_add_distr_r. rewrite <- Z.pow_add_r by lia. replace (64 - k + k) with 64 by lia. lia. }
+  rewrite Hm. rewrite <- Z.shiftr_div_pow2, <- Z.shiftl_mul_pow2 by lia.
+  apply Z.bits_inj'. intros n Hn.
+  rewrite Z.land_spec. rewrite !Z.shiftl_spec by lia.
+  destruct (Z_lt_ge_dec n k) as [Hlt|Hge].
+  - rewrite (Z.testbit_neg_r _ (n - k)) by lia. rewrite (Z.testbit_neg_r _ (n - k)) by lia. apply andb_false_r.
+  - rewrite Z.shiftr_spec by lia. replace (n - k + k) with n by lia.
+    destruct (Z_lt_ge_dec n 64) as [H64|H64].
+    + rewrite Z.ones_spec_low by lia. apply andb_true_r.
+    + rewrite Z.ones_spec_high by lia. rewrite andb_false_r.
+      destruct (Z.eq_dec x 0) as [->|Hx0]; [rewrite Z.bits_0; reflexivity|].
+      symmetry. apply Z.bits_above_log2; [lia|].
+      assert (Z.log2 x < 64) by (apply Z.log2_lt_pow2; lia). lia.
+Qed.
+
+Theorem align_go_pow2 v k : 0 <= k < 64 -> 0 <= v -> v + 2 ^ k <= 2 ^ 64 ->
+  align_go v (2 ^ k) = align v (2 ^ k) /\
+  v <= align v (2 ^ k) < v + 2 ^ k /\ (align v (2 ^ k)) mod 2 ^ k = 0.
+Proof using Type. clear_sec.
+  intros Hk Hv Hb. assert (Hp : 0 < 2 ^ k) by (apply Z.pow_pos_nonneg; lia).
+  assert (Hlt : 2 ^ k < 2 ^ 64) by (apply Z.pow_lt_mono_r; lia).
+  split.
+  - unfold align_go, align. rewrite (Z.mod_small (v + 2 ^ k - 1)) by lia.
+    rewrite (Z.mod_small (2 ^ 64 - 2 ^ k)) by lia. apply land_high_mask; lia.
+  - unfold align. set (P := 2 ^ k) in *.
+    pose proof (Z.div_mod (v + P - 1) P ltac:(lia)) as D. pose proof (Z.mod_pos_bound (v + P - 1) P Hp) as M.
+    split; [nia|]. apply Z.mod_mul. lia.
+Qed.
+
+
+(* ---------- sizes of regenerated sections and files ---------- *)
+
+Lemma sec_sizes h body h' nb : s_gd h = None -> zlen body < SZ -> gen_sec_header h body = (h', nb) ->
+  s_ext h' = zlen nb /\ zlen nb = s_hlen h' + zlen body /\
+  (s_hlen h' = 4 \/ s_hlen h' = 8) /\ ((16777215 <? s_ext h') = (s_hlen h' =? 8)).
+Proof using Type. clear_sec.
+  intros Hn Hz Hg. destruct (gen_shape h body Hz) as (chdr & hl & size3 & Hhl & Hlen & Hgen & _ & _ & Hbig).
+  rewrite Hg, Hn in Hgen. rewrite Hn in Hbig. cbn [tslen regd tshdr] in Hgen, Hbig.
+  pose proof (f_equal fst Hgen) as Eh. pose proof (f_equal snd Hgen) as Eb.
+  cbn [fst snd] in Eh, Eb. subst h' nb. cbn [s_ext s_hlen app]. rewrite !zlen_app.
+  repeat split; try assumption; lia.
+Qed.
+
+Lemma file_sizes h data h' nb : zlen (f_guid h) = 16 -> zlen data < SZ -> file_regen h data = (h', nb) ->
+  f_ext h' = zlen nb /\ (zlen nb = 24 + zlen data \/ zlen nb = 32 + zlen data) /\
+  ((16777215 <? f_ext h') = attr_large (f_attr h')) /\ sum8 (zskipn (zlen nb - zlen data) nb) = sum8 data.
+Proof using Type. clear_sec.
+  intros Hg Hz Hr.
+  destruct (file_regen_shape h data Hg Hz) as (hdr & ckh & ckf & attr & size3 & hl & Hhl & Hlen & Hreg & Hl & _ & _ & Hbig & _).
+  rewrite Hr in Hreg. pose proof (f_equal fst Hreg) as Eh. pose proof (f_equal snd Hreg) as Eb.
+  cbn [fst snd] in Eh, Eb. subst h' nb. cbn [f_ext f_attr]. rewrite zlen_app, Hlen.
+  repeat split; try lia.
+  replace (hl + zlen data - zlen data) with (zlen hdr) by lia. rewrite zskipn_app_exact. reflexivity.
+Qed.
+
+(* ---------- the two halves of the property, separately ---------- *)
+
+Theorem file_semantic_preservation pol t : wf pol t -> is_file t ->
+  forall st t1 st1, asm' t st = Ok (t1, st1) -> small t1 ->
+  forall d rest, (height t1 <= d)%nat ->
+  exists t2, pfile d pol (node_buf t1 ++ rest) = Ok (Some t2, pol) /\ deep t2 = deep t.
+Proof.
+  intros Hw Hf st t1 st1 Ha Hs d rest Hd.
+  destruct (file_preserved_and_fixed pol t Hw Hf st t1 st1 Ha Hs d rest Hd) as (t2 & H1 & H2 & _). eauto.
+Qed.
+
+Theorem file_save_fixed_point pol t : wf pol t -> is_file t ->
+  forall st t1 st1, asm' t st = Ok (t1, st1) -> small t1 ->
+  forall d rest t2, (height t1 <= d)%nat ->
+  pfile d pol (node_buf t1 ++ rest) = Ok (Some t2, pol) ->
+  forall st', exists t3 st3, asm' t2 st' = Ok (t3, st3) /\ node_buf t3 = node_buf t1.
+Proof.
+  intros Hw Hf st t1 st1 Ha Hs d rest t2 Hd Hp.
+  destruct (file_preserved_and_fixed pol t Hw Hf st t1 st1 Ha Hs d rest Hd) as (t2' & H1 & _ & H3).
+  rewrite H1 in Hp. injection Hp as <-. exact H3.
+Qed.
+
+Theorem sec_semantic_preservation pol t : wf pol t -> is_sec t ->
+  forall st t1 st1, asm' t st = Ok (t1, st1) -> small t1 ->
+  forall d rest i, (height t1 <= d)%nat ->
+  exists t2, psec d pol (node_buf t1 ++ rest) i = Ok (t2, pol) /\ deep t2 = deep t.
+Proof.
+  intros Hw Hf st t1 st1 Ha Hs d rest i Hd.
+  destruct (sec_preserved_and_fixed pol t Hw Hf st t1 st1 Ha Hs d rest i Hd) as (t2 & H1 & H2 & _). eauto.
+Qed.
+
+Theorem sec_save_fixed_point pol t : wf pol t -> is_sec t ->
+  forall st t1 st1, asm' t st = Ok (t1, st1) -> small t1 ->
+  forall d rest i t2, (height t1 <= d)%nat ->
+  psec d pol (node_buf t1 ++ rest) i = Ok (t2, pol) ->
+  forall st', exists t3 st3, asm' t2 st' = Ok (t3, st3) /\ node_buf t3 = node_buf t1.
+Proof.
+  intros Hw Hf st t1 st1 Ha Hs d rest i t2 Hd Hp.
+  destruct (sec_preserved_and_fixed pol t Hw Hf st t1 st1 Ha Hs d rest i Hd) as (t2' & H1 & _ & H3).
+  rewrite H1 in Hp. injection Hp as <-. exact H3.
+Qed.
+
+
+(* ---------- FV-image sections are transparent ---------- *)
+
+(* the section Assemble writes around a nested volume [vb] parses, in any context, to a section whose
+   only child is whatever the volume parser makes of exactly [vb]: the section (and, by stage 2, the
+   file) layers around a nested volume add nothing to the open volume-layer question *)
+Theorem fvimage_section_transparent rs rf pol h vb h' nb rest i v2 pol' :
+  s_type h = 23 -> s_gd h = None -> 0 < zlen vb < SZ -> gen_sec_header h vb = (h', nb) ->
+  rf pol vb 0 true = Ok (v2, pol') ->
+  sbody rs rf pol (nb ++ rest) i =
+    Ok (NSec (sec_default (s_size3 h') 23 (s_ext h') (s_hlen h') i) nb [v2], pol') /\
+  s_ext h' = zlen nb /\ zlen nb = s_hlen h' + zlen vb.
+Proof using Type. clear_sec.
+  intros Ht Hn Hz Hgen Hrf.
+  destruct (gen_shape h vb ltac:(unfold SZ in Hz; lia)) as (chdr & hl & size3 & Hhl & Hlen & Hgen' & Hrd & Hhead & _).
+  rewrite Hgen, Hn in Hgen'. rewrite Hn in Hhead. cbn [tslen regd tshdr] in Hgen', Hhead.
+  pose proof (f_equal fst Hgen') as Eh. pose proof (f_equal snd Hgen') as Eb.
+  cbn [fst snd app] in Eh, Eb. subst h' nb. cbn [s_size3 s_ext s_hlen].
+  pose proof (zlen_nonneg rest) as Hr.
+  assert (Hzb : zlen (chdr ++ vb) = hl + 0 + zlen vb) by (rewrite zlen_app; lia).
+  split; [|split; [lia|rewrite zlen_app; lia]].
+  rewrite section_body_eq.
+  replace (zlen ((chdr ++ vb) ++ rest) <? 4) with false by (rewrite !zlen_app; lia).
+  rewrite <- app_assoc. rewrite (Hhead _ ltac:(rewrite Ht; reflexivity)). cbn [bind].
+  replace (zlen (chdr ++ vb ++ rest) <? hl + 0 + zlen vb) with false by (rewrite !zlen_app; lia).
+  replace (hl + 0 + zlen vb <? hl) with false by lia.
+  replace (sub 0 (hl + 0 + zlen vb) (chdr ++ vb ++ rest)) with (chdr ++ vb).
+  2:{ rewrite app_assoc. symmetry. apply sub_app_here. exact Hzb. }
+  destruct (Hrd (vb ++ rest)) as [R0 R3]. rewrite R0, R3, Ht.
+  unfold sec_tail. change (23 =? 2) with false. change (23 =? 21) with false. change (23 =? 20) with false.
+  change (23 =? 23) with true. cbv iota.
+  replace (zlen (chdr ++ vb) <=? hl) with false by lia.
+  replace (zskipn hl (chdr ++ vb)) with vb by (rewrite <- Hlen; symmetry; apply zskipn_app_exact).
+  rewrite Hrf. cbn [bind]. reflexivity.
 Qed.
 
 End Codec.
